@@ -535,7 +535,21 @@ func (g *G) genSwitch(f *FlowSpec, nd *nodeDraft, loc J, subflow bool) {
 			c := J{"uuid": cu, "type": ts.name, "category_uuid": cats[t.Pick("casecat", len(cats))]["uuid"]}
 			if len(args) > 0 {
 				c["arguments"] = toAnyS(args)
-				if ts.name != "has_group" {
+				if ts.name == "has_group" && len(g.S.Groups) >= 2 {
+					// a multilingual workspace may keep one group per language: the translated case tests another group
+					g.localize(f, loc, cu, "arguments", args, func(lang string, i int) string {
+						other := g.S.Groups[(len(lang)+len(cu)+i/2+1)%len(g.S.Groups)]
+						for gi, gr := range g.S.Groups {
+							if gr.UUID == args[0] {
+								other = g.S.Groups[(gi+1+len(lang)%2)%len(g.S.Groups)]
+							}
+						}
+						if i == 0 {
+							return other.UUID
+						}
+						return other.Name
+					})
+				} else if ts.name != "has_group" {
 					g.localize(f, loc, cu, "arguments", args, func(lang string, i int) string {
 						if i < len(args) && (strings.HasPrefix(args[i], "@") || isNumeric(args[i])) {
 							return args[i]
